@@ -1,53 +1,87 @@
 // C52 -- the REAL tfel-check, rebuilt from /repo's working tree: tfel-check/src/tfel-check.cxx (its `main` renamed by
 // -Dmain=tfel_check_real_main), the TFELCheck library sources and src/System/{ThreadPool,ProcessManager,SignalManager,..}
-// are compiled into this executable; only the other TFEL libraries come from /repo/_build.
-// No source hook: pthread_mutex_lock/unlock and waitpid are redirected at link time (-Wl,--wrap=...); operations on
-// `log_synchronization` (the log mutex of tfel-check.cxx) and on the ThreadPool's mutex (recognised as the first mutex
-// ever locked by a thread other than the main one: a worker starts by locking it) are logged with a global sequence
-// number (LOCK after acquisition, UNLOCK before release), seeded random delays are injected there, and failing
-// blocking waitpid calls are logged (defect F8 of ProcessManager::wait makes verdicts schedule dependent).
-// The log is written to $C52_TRACE when tfel-check's main returns.
+// are compiled into this executable; only the other TFEL libraries come from /repo/_build (a private copy of them).
+// No source hook: pthread_mutex_lock/unlock, waitpid, sigaction and SignalManager::registerHandler / removeHandler are
+// redirected at link time (-Wl,--wrap=...).
+//  * operations on `log_synchronization` (the log mutex of tfel-check.cxx) and on the ThreadPool's mutex (recognised as
+//    the first mutex ever locked by a thread other than the main one: a worker starts by locking it) are logged with a
+//    global sequence number (LOCK after acquisition, UNLOCK before release), seeded random delays are injected there;
+//  * failing blocking waitpid calls are logged;
+//  * the owners of `processesAccess` and `callbacksAccess` are known: a thread that locks one it already holds (the
+//    signal handler interrupted the holder) is logged (SELFLOCK) and the process leaves with status 96 instead of hanging;
+//  * registerHandler is given a proxy of the handler; when the code deletes it, a tombstone stays in its storage: the
+//    call of a handler that removeHandler has deleted is an event of the log (HEXEC_DELETED) instead of a crash;
+//  * $C52_WIDEN (microseconds): pause of a thread that has just released callbacksAccess inside the signal handler
+//    (the pinned treatAction then calls the copied handlers): widens the window of defect F19, changes nothing else.
+// The log is kept in the file $C52_TRACE (binary, mmap'ed: it survives a crash).
 #undef main
 #include <atomic>
 #include <cerrno>
+#include <cstddef>
 #include <cstdio>
 #include <cstdlib>
 #include <mutex>
+#include <new>
 #include <pthread.h>
 #include <sched.h>
 #include <signal.h>
+#include <sys/mman.h>
+#include <sys/prctl.h>
 #include <sys/types.h>
 #include <sys/wait.h>
 #include <time.h>
 #include <unistd.h>
 #include <fcntl.h>
 #include <string>
+#include "TFEL/System/SignalHandler.hxx"
 
 extern std::mutex log_synchronization;  // tfel-check/src/tfel-check.cxx
+// src/System/ProcessManager.cxx, src/System/SignalManager.cxx (std::mutex or std::recursive_mutex)
+extern pthread_mutex_t c52_processesAccess __asm__("processesAccess");
+extern pthread_mutex_t c52_callbacksAccess __asm__("callbacksAccess");
 int tfel_check_real_main(const int, const char* const* const);
+
+#define REGISTER_HANDLER _ZN4tfel6system13SignalManager15registerHandlerEiPNS0_13SignalHandlerER9sigaction
+#define REMOVE_HANDLER _ZN4tfel6system13SignalManager13removeHandlerEm
+#define WRAP_(x) __wrap_##x
+#define REAL_(x) __real_##x
+#define WRAP(x) WRAP_(x)
+#define REAL(x) REAL_(x)
 
 extern "C" {
 int __real_pthread_mutex_lock(pthread_mutex_t*);
 int __real_pthread_mutex_unlock(pthread_mutex_t*);
 pid_t __real_waitpid(pid_t, int*, int);
+pid_t __real_fork(void);
+int __real_sigaction(int, const struct sigaction*, struct sigaction*);
+std::size_t REAL(REGISTER_HANDLER)(void*, int, tfel::system::SignalHandler*, struct sigaction*);
+void REAL(REMOVE_HANDLER)(void*, std::size_t);
 }
 
-enum Kind { LOGLOCK, LOGUNLOCK, POOLLOCK, POOLUNLOCK, WAITFAIL };
-static const char* const kind_names[] = {"LOGLOCK", "LOGUNLOCK", "POOLLOCK", "POOLUNLOCK", "WAITFAIL"};
+enum Kind { LOGLOCK, LOGUNLOCK, POOLLOCK, POOLUNLOCK, WAITFAIL, SELFLOCK, HEXEC_BEGIN, HEXEC_END, HEXEC_DELETED, HDELETE,
+            REG_RET, REM_CALL, REM_RET, SIG_ENTER, SIG_RETURN, SIG_DEFERRED, CUNLOCK_IN_HANDLER };
 struct Event {
   int tid, kind;
   long a;
 };
 static constexpr long LOGMAX = 1L << 20;
-static Event* evlog = nullptr;
-static std::atomic<long> nlog{0};
+struct Log {
+  std::atomic<long> n;
+  long pad;
+  Event ev[LOGMAX];
+};
+static Log* evlog = nullptr;
 static std::atomic<int> nthreads{0};
 static thread_local int me = -1;
+static thread_local int hdepth = 0;
 static thread_local unsigned long long rng = 0;
 static std::atomic<pthread_mutex_t*> pool_mutex{nullptr};
 static pthread_mutex_t* log_mutex = nullptr;
+static pthread_mutex_t* const pmutex = &c52_processesAccess;
+static pthread_mutex_t* const cmutex = &c52_callbacksAccess;
 static unsigned long long seed = 1;
 static int perturb = 0;
+static long widen_us = 0;
 
 static int tid() {
   if (me < 0) me = nthreads.fetch_add(1);
@@ -55,8 +89,14 @@ static int tid() {
 }
 static void logev(int kind, long a = 0) {
   if (evlog == nullptr) return;
-  const long i = nlog.fetch_add(1);
-  if (i < LOGMAX) evlog[i] = Event{tid(), kind + 1, a};
+  const long i = evlog->n.fetch_add(1);
+  if (i < LOGMAX) evlog->ev[i] = Event{tid(), kind + 1, a};
+}
+static void sleep_us(long us) {
+  if (us <= 0) return;
+  timespec t{us / 1000000, (us % 1000000) * 1000};
+  while (nanosleep(&t, &t) == -1 && errno == EINTR) {
+  }
 }
 static void maybe_delay() {
   if (perturb == 0) return;
@@ -74,9 +114,134 @@ static void maybe_delay() {
   }
 }
 
+// ---------------------------------------------------------------- memory allocation and signals
+// treatAction and the handlers allocate memory, which is not async-signal-safe: a SIGCHLD delivered while its thread is
+// inside malloc/free makes the handler wait for the arena lock held by the code it interrupted (props/C30/NOTES.md, F24).
+// That hazard of the real code is outside the model; so that it cannot hang a run, a SIGCHLD that arrives while the thread
+// is inside the malloc family is counted, not treated, and sent again to the same thread when the allocation returns.
+static thread_local int alloc_depth = 0;
+static thread_local bool sigchld_deferred = false;
+static inline void alloc_enter() { ++alloc_depth; }
+static inline void alloc_leave() {
+  if (--alloc_depth == 0 && sigchld_deferred) {
+    sigchld_deferred = false;
+    pthread_kill(pthread_self(), SIGCHLD);
+  }
+}
+#ifndef C52_NO_MALLOC_WRAP
+extern "C" {
+void* __libc_malloc(size_t);
+void __libc_free(void*);
+void* __libc_calloc(size_t, size_t);
+void* __libc_realloc(void*, size_t);
+void* __libc_memalign(size_t, size_t);
+void* malloc(size_t n) {
+  alloc_enter();
+  void* const p = __libc_malloc(n);
+  alloc_leave();
+  return p;
+}
+void free(void* p) {
+  alloc_enter();
+  __libc_free(p);
+  alloc_leave();
+}
+void* calloc(size_t a, size_t b) {
+  alloc_enter();
+  void* const p = __libc_calloc(a, b);
+  alloc_leave();
+  return p;
+}
+void* realloc(void* q, size_t n) {
+  alloc_enter();
+  void* const p = __libc_realloc(q, n);
+  alloc_leave();
+  return p;
+}
+void* memalign(size_t a, size_t n) {
+  alloc_enter();
+  void* const p = __libc_memalign(a, n);
+  alloc_leave();
+  return p;
+}
+void* aligned_alloc(size_t a, size_t n) { return memalign(a, n); }
+int posix_memalign(void** r, size_t a, size_t n) {
+  void* const p = memalign(a, n);
+  if (p == nullptr) return ENOMEM;
+  *r = p;
+  return 0;
+}
+}
+#endif
+
+// ---------------------------------------------------------------- handlers
+static constexpr int NPROXY = 1 << 17;
+struct Slot {
+  int serial;
+  alignas(16) unsigned char storage[64];
+};
+static Slot* slots = nullptr;
+static std::atomic<int> next_serial{0};
+struct Tombstone final : public tfel::system::SignalHandler {
+  explicit Tombstone(const int s) : serial(s) {}
+  void execute(const int) override { logev(HEXEC_DELETED, serial); }
+  ~Tombstone() override = default;
+  static void operator delete(void*) {}
+  int serial;
+};
+struct Proxy final : public tfel::system::SignalHandler {
+  Proxy(tfel::system::SignalHandler* const o, const int s) : orig(o), serial(s) {}
+  void execute(const int sig) override {
+    logev(HEXEC_BEGIN, serial);
+    orig->execute(sig);
+    logev(HEXEC_END, serial);
+  }
+  ~Proxy() override {
+    logev(HDELETE, serial);
+    delete orig;
+  }
+  static void operator delete(void* p) {
+    Slot* const s = reinterpret_cast<Slot*>(static_cast<unsigned char*>(p) - offsetof(Slot, storage));
+    new (p) Tombstone(s->serial);
+  }
+  tfel::system::SignalHandler* orig;
+  int serial;
+};
+static_assert(sizeof(Proxy) <= 64 && sizeof(Tombstone) <= 64, "slot too small");
+
+static std::atomic<int> p_owner{-1}, c_owner{-1}, c_owner_depth{0}, c_count{0};
+[[noreturn]] static void self_lock(const int which) {
+  logev(SELFLOCK, which);
+  _exit(96);
+}
+
 extern "C" {
 int __wrap_pthread_mutex_lock(pthread_mutex_t* m) {
   if (evlog == nullptr) return __real_pthread_mutex_lock(m);
+  if (m == pmutex || m == cmutex) {
+    // signals are blocked while [acquire; note the owner] so that a handler interrupting this thread sees the truth
+    const int saved = errno;
+    sigset_t all, old;
+    sigfillset(&all);
+    pthread_sigmask(SIG_BLOCK, &all, &old);
+    int r = 0;
+    if (m == pmutex) {
+      if (p_owner.load() == tid()) self_lock(0);
+      r = __real_pthread_mutex_lock(m);
+      p_owner.store(tid());
+    } else {
+      const bool recursive = (m->__data.__kind & 127) == PTHREAD_MUTEX_RECURSIVE_NP;
+      if (c_owner.load() == tid() && !(recursive && c_owner_depth.load() == hdepth)) self_lock(1);
+      r = __real_pthread_mutex_lock(m);
+      if (c_count.fetch_add(1) == 0) {
+        c_owner.store(tid());
+        c_owner_depth.store(hdepth);
+      }
+    }
+    pthread_sigmask(SIG_SETMASK, &old, nullptr);
+    errno = saved;
+    return r;
+  }
   const bool is_log = (m == log_mutex);
   if (!is_log && tid() != 0 && pool_mutex.load() == nullptr) {
     pthread_mutex_t* expected = nullptr;
@@ -91,9 +256,38 @@ int __wrap_pthread_mutex_lock(pthread_mutex_t* m) {
 }
 int __wrap_pthread_mutex_unlock(pthread_mutex_t* m) {
   if (evlog == nullptr) return __real_pthread_mutex_unlock(m);
+  if (m == pmutex || m == cmutex) {
+    const int saved = errno;
+    sigset_t all, old;
+    sigfillset(&all);
+    pthread_sigmask(SIG_BLOCK, &all, &old);
+    bool pause = false;
+    if (m == pmutex) {
+      p_owner.store(-1);
+    } else if (c_count.fetch_sub(1) == 1) {
+      c_owner.store(-1);
+      pause = hdepth > 0;
+      if (pause) logev(CUNLOCK_IN_HANDLER);
+    }
+    const int r = __real_pthread_mutex_unlock(m);
+    pthread_sigmask(SIG_SETMASK, &old, nullptr);
+    if (pause && widen_us > 0) sleep_us(widen_us);
+    errno = saved;
+    return r;
+  }
   if (m == log_mutex) logev(LOGUNLOCK);
   if (m == pool_mutex.load()) logev(POOLUNLOCK);
   return __real_pthread_mutex_unlock(m);
+}
+pid_t __wrap_fork(void) {
+  const pid_t parent = getpid();
+  const pid_t p = __real_fork();
+  if (p == 0) {
+    // a command must not outlive tfel-check (the driver leaves at once when it detects a self-lock)
+    prctl(PR_SET_PDEATHSIG, SIGKILL);
+    if (getppid() != parent) _exit(125);
+  }
+  return p;
 }
 pid_t __wrap_waitpid(pid_t pid, int* status, int options) {
   const pid_t r = __real_waitpid(pid, status, options);
@@ -104,11 +298,53 @@ pid_t __wrap_waitpid(pid_t pid, int* status, int options) {
   }
   return r;
 }
+
+static void (*real_handler[65])(int);
+static void trampoline(int sig) {
+  const int saved = errno;
+  if (sig == SIGCHLD && alloc_depth > 0 && hdepth == 0) {
+    sigchld_deferred = true;
+    logev(SIG_DEFERRED, sig);
+    errno = saved;
+    return;
+  }
+  ++hdepth;
+  logev(SIG_ENTER, sig);
+  if (sig >= 0 && sig < 65 && real_handler[sig] != nullptr) real_handler[sig](sig);
+  logev(SIG_RETURN, sig);
+  --hdepth;
+  errno = saved;
+}
+int __wrap_sigaction(int sig, const struct sigaction* act, struct sigaction* old) {
+  if (evlog == nullptr || act == nullptr || sig < 0 || sig >= 65 || (act->sa_flags & SA_SIGINFO) || act->sa_handler == SIG_DFL ||
+      act->sa_handler == SIG_IGN) {
+    return __real_sigaction(sig, act, old);
+  }
+  struct sigaction a = *act;
+  real_handler[sig] = act->sa_handler;
+  a.sa_handler = trampoline;
+  return __real_sigaction(sig, &a, old);
+}
+std::size_t WRAP(REGISTER_HANDLER)(void* self, int sig, tfel::system::SignalHandler* f, struct sigaction* action) {
+  tfel::system::SignalHandler* h = f;
+  const int serial = next_serial.fetch_add(1);
+  if (slots != nullptr && serial < NPROXY) {
+    slots[serial].serial = serial;
+    h = new (slots[serial].storage) Proxy(f, serial);
+  }
+  const std::size_t id = REAL(REGISTER_HANDLER)(self, sig, h, action);
+  logev(REG_RET, static_cast<long>(id) * 1000000L + serial);
+  return id;
+}
+void WRAP(REMOVE_HANDLER)(void* self, std::size_t id) {
+  logev(REM_CALL, static_cast<long>(id));
+  REAL(REMOVE_HANDLER)(self, id);
+  logev(REM_RET, static_cast<long>(id));
+}
 }
 
-// Diagnosis only, never a verdict by itself: if tfel-check has not finished after C52_WATCHDOG seconds (it does deadlock
-// now and then: a SIGCHLD handler locking processesAccess in a thread that already holds it), ask gdb for the stacks of
-// all threads, store them next to the trace and leave with status 97.
+// Diagnosis only, never a verdict by itself: if tfel-check has not finished after C52_WATCHDOG seconds, ask gdb for the
+// stacks of all threads (at most 30 s), store them next to the trace and leave with status 97.
 static void* watchdog(void* arg) {
   const long s = reinterpret_cast<long>(arg);
   timespec t{s, 0};
@@ -117,18 +353,19 @@ static void* watchdog(void* arg) {
   const char* f = std::getenv("C52_TRACE");
   const std::string out = std::string(f != nullptr ? f : "/dev/null") + ".hang";
   const std::string pid = std::to_string(getpid());
-  const pid_t p = fork();
+  const pid_t p = __real_fork();
   if (p == 0) {
     const int fd = open(out.c_str(), O_WRONLY | O_CREAT | O_TRUNC, 0644);
     if (fd >= 0) {
       dup2(fd, 1);
       dup2(fd, 2);
     }
-    execlp("gdb", "gdb", "-q", "-batch", "-p", pid.c_str(), "-ex", "thread apply all bt 16", static_cast<char*>(nullptr));
+    execlp("gdb", "gdb", "-q", "-batch", "-p", pid.c_str(), "-ex", "thread apply all bt 24", static_cast<char*>(nullptr));
     _exit(127);
   }
   int st = 0;
-  if (p > 0) __real_waitpid(p, &st, 0);
+  for (int i = 0; p > 0 && i < 300 && __real_waitpid(p, &st, WNOHANG) == 0; ++i) sleep_us(100000);
+  if (p > 0) kill(p, SIGKILL);
   _exit(97);
 }
 
@@ -136,6 +373,7 @@ int main(const int argc, const char* const* const argv) {
   me = nthreads.fetch_add(1);  // the main thread is thread 0
   if (const char* s = std::getenv("C52_SEED")) seed = std::strtoull(s, nullptr, 10);
   if (const char* s = std::getenv("C52_PERTURB")) perturb = std::atoi(s);
+  if (const char* s = std::getenv("C52_WIDEN")) widen_us = std::atol(s);
   log_mutex = log_synchronization.native_handle();
   if (const char* s = std::getenv("C52_WATCHDOG")) {
     sigset_t all, old;
@@ -145,17 +383,19 @@ int main(const int argc, const char* const* const argv) {
     pthread_create(&th, nullptr, watchdog, reinterpret_cast<void*>(std::atol(s)));
     pthread_sigmask(SIG_SETMASK, &old, nullptr);
   }
-  evlog = static_cast<Event*>(std::calloc(LOGMAX, sizeof(Event)));
-  const int rc = tfel_check_real_main(argc, argv);
+  void* mem = MAP_FAILED;
   if (const char* f = std::getenv("C52_TRACE")) {
-    if (FILE* o = std::fopen(f, "w")) {
-      const long n = nlog.load();
-      for (long i = 0; i < n && i < LOGMAX; ++i) {
-        if (evlog[i].kind <= 0) continue;
-        std::fprintf(o, "%d %s %ld\n", evlog[i].tid, kind_names[evlog[i].kind - 1], evlog[i].a);
-      }
-      std::fclose(o);
-    }
+    const int fd = open(f, O_RDWR | O_CREAT | O_TRUNC, 0644);
+    if (fd >= 0 && ftruncate(fd, sizeof(Log)) == 0) mem = mmap(nullptr, sizeof(Log), PROT_READ | PROT_WRITE, MAP_SHARED, fd, 0);
+    if (fd >= 0) close(fd);
   }
-  return rc;
+  if (mem == MAP_FAILED) mem = mmap(nullptr, sizeof(Log), PROT_READ | PROT_WRITE, MAP_PRIVATE | MAP_ANONYMOUS, -1, 0);
+  if (mem == MAP_FAILED) return 98;
+  if (std::getenv("C52_NOPROXY") == nullptr) {
+    void* const s = mmap(nullptr, sizeof(Slot) * NPROXY, PROT_READ | PROT_WRITE, MAP_PRIVATE | MAP_ANONYMOUS, -1, 0);
+    if (s != MAP_FAILED) slots = static_cast<Slot*>(s);
+  }
+  static_cast<Log*>(mem)->n.store(0);
+  evlog = static_cast<Log*>(mem);
+  return tfel_check_real_main(argc, argv);
 }
